@@ -401,10 +401,8 @@ impl File {
         // passes (CST, then AST). As a result some of the warnings will be out of order versus
         // pltotf - e.g., all CST level warnings will come first, whereas in pltotf the warnings are
         // interleaved depending on where they appear in the file. This is easy to fix.
-        errors.sort_by_key(|w| {
-            w.knuth_pltotf_offset
-                .expect("all warnings generated so far have an offset populated")
-        });
+        // Warnings without an offset (lig table is too big) are sorted last.
+        errors.sort_by_key(|w| w.knuth_pltotf_offset.unwrap_or(usize::MAX));
 
         // PLtoTF.2014.116
         if let Some(final_instruction) = file.lig_kern_program.instructions.last_mut() {
